@@ -26,7 +26,7 @@ REQUIRED = ['qr:square', 'qr:tall', 'qr:wide', 'qr_full:square', 'qr_full:tall',
 def cases(tier, seed):
     out = []
     Ds = [1, 2, 3, 5] if tier == 'quick' else [1, 2, 3, 4, 5, 6, 7]
-    reps = 1 if tier == 'quick' else 80
+    reps = 1 if tier == 'quick' else 600
 
     def add(kind, **prm):
         s = case_seed('C08', seed, kind, sorted(prm.items()))
